@@ -22,7 +22,9 @@ What is varied (the compiler sees genuine edits / options):
                            b: constant in a required module, d: -DDVAL=<d>;  code >= 900: invalid C
     cmd  = k               --cflags=-DK=<k>;  k >= 100 additionally --release (the generated C of these programs is the
                            same with and without --release, so it is purely a change of the compiler command)
-    cc   = 0|1             the compiler behind the (constant) --cc wrapper: gcc | clang
+    cc   = w               the WORLD: w % 10 = the compiler behind the (constant) --cc wrapper (0 gcc, 1 clang),
+                           w // 10 = the version of a C header the program includes with cinclude (an edit of it
+                           changes neither the generated C nor the command nor ccinfo)
     nohead                 -P nocheading         nocache   --no-cache
     out                    -o <scratch>/out/o<n>  (the artefact is then executed by the replayer)
 """
@@ -73,13 +75,15 @@ def main_source(slot, code):
     a = code // 4
     bad = "## cemit 'this is not C;\\n'\n" if code >= 900 else ""
     return ("require 'cval%d'\n"
+            "## cinclude '\"c08hdr.h\"'\n"
+            "local HV: cint <cimport,nodecl>\n"
             "## local d = DVAL or 0\n"
             "## cemit '#ifdef __clang__\\n#define CCID 1\\n#else\\n#define CCID 0\\n#endif\\n#ifndef K\\n#define K 0\\n#endif\\n'\n"
             "%s"
             "local CCID: cint <cimport,nodecl>\n"
             "local K: cint <cimport,nodecl>\n"
             "local MAINVAL <comptime> = %d\n"
-            "print('code', MAINVAL*4 + MODVAL*2 + #[d]#, 'K', K, 'cc', CCID)\n" % (slot, bad, a))
+            "print('code', MAINVAL*4 + MODVAL*2 + #[d]#, 'K', K, 'cc', CCID + 10*HV)\n" % (slot, bad, a))
 
 
 def mod_source(code):
@@ -105,7 +109,8 @@ class Replayer:
         shutil.rmtree(hdir, ignore_errors=True)
         self.cache = os.path.join(hdir, "cache")
         self.outd = os.path.join(hdir, "out")
-        for d in (self.cache, self.outd, os.path.join(hdir, "srcA"), os.path.join(hdir, "srcB")):
+        self.hdrd = os.path.join(hdir, "hdr")
+        for d in (self.cache, self.outd, self.hdrd, os.path.join(hdir, "srcA"), os.path.join(hdir, "srcB")):
             os.makedirs(d)
         self.wrapper = os.path.join(hdir, "mycc")
         self.cur_cc = None
@@ -147,7 +152,7 @@ class Replayer:
         return (mtime_ns + self.shift * 10**9 - self.T0 * 10**9) // (10**9 // TPS)
 
     def args_of(self, s, cache, outp):
-        a = ["--verbose", "--cache-dir", cache, "--cc", self.wrapper, "--cflags=-DK=%d" % s["cmd"], "-DDVAL=%d" % (s["code"] % 2)]
+        a = ["--verbose", "--cache-dir", cache, "--cc", self.wrapper, "--cflags=-DK=%d -I %s" % (s["cmd"], self.hdrd), "-DDVAL=%d" % (s["code"] % 2)]
         if s["cmd"] >= 100:
             a += ["--release"]
         if s["nohead"]:
@@ -164,6 +169,7 @@ class Replayer:
         sdir = os.path.join(self.hdir, "srcB" if (s["code"] // 4) % 2 == 1 else "srcA")
         write_if_differs(os.path.join(sdir, "slot%d.nelua" % s["slot"]), main_source(s["slot"], s["code"]))
         write_if_differs(os.path.join(sdir, "cval%d.nelua" % s["slot"]), mod_source(s["code"]))
+        write_if_differs(os.path.join(self.hdrd, "c08hdr.h"), "#define HV %d\n" % (s["cc"] // 10))
         return sdir
 
     def nelua(self, args, cwd, kill=False):
@@ -188,7 +194,7 @@ class Replayer:
 
     def invoke(self, s):
         """Perform one R/I step.  Returns a dict with decisions, outcome and observed write ticks."""
-        self.set_cc(s["cc"])
+        self.set_cc(s["cc"] % 10)
         sdir = self.prepare_sources(s)
         cfile = os.path.join(self.cache, "slot%d.c" % s["slot"])
         outp = os.path.join(self.outd, "o%d" % s["out"]) if s["out"] is not None and s["k"] != "C" else None
@@ -233,7 +239,7 @@ class Replayer:
         """The same invocation with --no-cache in a fresh directory."""
         shutil.rmtree(refdir, ignore_errors=True)
         os.makedirs(os.path.join(refdir, "cache"))
-        self.set_cc(s["cc"])
+        self.set_cc(s["cc"] % 10)
         sdir = self.prepare_sources(s)
         s2 = dict(s)
         s2["nocache"] = True
